@@ -1105,7 +1105,7 @@ func monitor(c Case, o *Obs) []core.Violation {
 		add("C14", "failure-without-termination", fmt.Sprintf("%s%s: batch(es) %v handed to a worker were not reported written and no worker raised the termination signal (the wait ended by: %s; workers returned %v; %d produce requests, %d with an error answer)",
 			tb, conf, unwritten, o.Stop, o.Returned, o.Requests, o.ErrAnswers))
 	case len(unwritten) > 0 && o.ErrAnswers == 0 && len(unsent) > 0:
-		add("C15", "batch-accepted-row-refused-by-producer", fmt.Sprintf("%s: the broker answered NoError to every one of its %d produce requests, yet batch(es) %v were not written and the worker stopped the process (termination by worker %v, escaped panic %v). Row(s) %s had been accepted by the factory-made batch and never reached the broker: the factory-made producer does not take what the factory-made batch lets through",
+		add("C14", "batch-accepted-row-refused-by-producer", fmt.Sprintf("%s: the broker answered NoError to every one of its %d produce requests, yet batch(es) %v were not written and the worker stopped the process (termination by worker %v, escaped panic %v). Row(s) %s had been accepted by the factory-made batch and never reached the broker: the factory-made producer does not take what the factory-made batch lets through",
 			conf, o.Requests, unwritten, o.TermByWorker, o.Escaped, strings.Join(unsent, ", ")))
 	case len(unwritten) > 0 && o.ErrAnswers == 0:
 		add("C14", "acked-batch-not-written", fmt.Sprintf("%s: the broker received and answered NoError to everything, yet batch(es) %v were not reported written (termination by worker %v, escaped panic %v)", conf, unwritten, o.TermByWorker, o.Escaped))
